@@ -39,7 +39,8 @@ def normalize_index(index, ndim):
         index = int(index)
     if isinstance(index, (slice, int)):
         return tuple([index] + [slice(None) for i in range(ndim - 1)])
-    if isinstance(index, np.ndarray) and index.dtype == bool and index.all():
+    if isinstance(index, np.ndarray) and index.dtype == bool and index.size \
+            and index.all():
         # The numpy test routines seem to like passing in ND arrays that are
         # all True (an integer array without a 0 is an index, not a mask)
         return tuple(slice(None) for i in range(ndim))
